@@ -931,3 +931,162 @@ pub fn digest_only(seed: u64, runs: usize, workers: usize) -> u64 {
     d.push(s.distinct.len() as u64);
     d.finish()
 }
+
+// ---------------------------------------------------------------------------------------------
+// C18 (chains): the same chain machinery over *all* ops, no injected faults. The hostile sweep of C18-P calls every
+// function with generated arguments; this part calls functions on the *results* of other functions (a look_at
+// matrix fed to inverse, a from_rotation_arc quaternion fed to to_euler ...), where the only oracle needed is the
+// crash monitor: no step may panic (the documented slice / index family is driven in range).
+
+fn gen_chain(seed: u64, run: u64) -> Program {
+    let mut rng = Rng::new(seed, "c18-chain", run);
+    let n_steps = rng.range(2, 7);
+    let cls = match rng.below(8) {
+        0 | 1 => Cls::Ordinary,
+        2 | 3 => Cls::Mix,
+        4 => Cls::RandomBits,
+        _ => Cls::Lattice(rng.below(NUM_F_LATTICE)),
+    };
+    // a chain is about a family of types: pick an owner and prefer its ops, so that results get consumed
+    let owner = OPS[rng.below(OPS.len())].owner;
+    let mut g = Gen { rng: &mut rng, next_id: 0, reg_ty: Vec::new(), init: Vec::new(), fresh_vals: Vec::new(), cls };
+    let mut steps = Vec::new();
+    for _ in 0..n_steps {
+        // prefer an op that can consume something already produced
+        let mut oi = g.rng.below(OPS.len());
+        for _ in 0..8 {
+            let cand = g.rng.below(OPS.len());
+            let o = &OPS[cand];
+            let consumes = o.args.iter().any(|t| g.reg_ty.iter().any(|(_, rt)| rt == t && !matches!(t, Ty::S(_))));
+            if (o.owner == owner || g.rng.chance(1, 4)) && (consumes || g.reg_ty.is_empty()) && o.fname != "fmt_sink" {
+                oi = cand;
+                break;
+            }
+        }
+        let op = &OPS[oi];
+        let args: Vec<RegId> = op.args.iter().map(|t| g.pick_arg(t, op)).collect();
+        let outs: Vec<RegId> = op
+            .outs
+            .iter()
+            .map(|t| {
+                let id = g.next_id;
+                g.next_id += 1;
+                g.reg_ty.push((id, *t));
+                id
+            })
+            .collect();
+        steps.push(Step { op: oi, args, outs });
+    }
+    Program { init: g.init, steps, faults: Vec::new() }
+}
+
+fn first_panic(p: &Program) -> Option<(usize, String)> {
+    let t = execute(p, Variant::None, false);
+    t.steps.iter().enumerate().find_map(|(k, s)| match s {
+        StepLog::Panic(m) => Some((k, m.clone())),
+        _ => None,
+    })
+}
+
+fn shrink_chain(p: &Program, class: &str) -> Program {
+    let same = |q: &Program| matches!(first_panic(q), Some((k, _)) if format!("panic:{}", OPS[q.steps[k].op].name) == class);
+    let mut cur = p.clone();
+    if let Some((k, _)) = first_panic(&cur) {
+        cur.steps.truncate(k + 1);
+    }
+    let mut progress = true;
+    while progress {
+        progress = false;
+        for k in (0..cur.steps.len().saturating_sub(1)).rev() {
+            let tr = execute(&cur, Variant::None, false);
+            let mut cand = cur.clone();
+            let st = cand.steps.remove(k);
+            for id in &st.outs {
+                if let Some(v) = tr.regs.get(id) {
+                    cand.init.push((*id, v.clone()));
+                }
+            }
+            if same(&cand) {
+                cur = cand;
+                if let Some((k2, _)) = first_panic(&cur) {
+                    cur.steps.truncate(k2 + 1);
+                }
+                progress = true;
+                break;
+            }
+        }
+    }
+    let used: BTreeSet<RegId> = cur.steps.iter().flat_map(|s| s.args.iter().copied()).collect();
+    cur.init.retain(|(id, _)| used.contains(id));
+    cur
+}
+
+pub fn run_c18_chains(seed: u64, runs: usize, workers: usize) -> Summary {
+    let mut sum = Summary::default();
+    sum.faults_fired.insert("COMPOSED_CALL".into(), 0);
+    sum.faults_effective.insert("COMPOSED_CALL".into(), 0);
+    let mut steps = 0u64;
+    let mut consumed = 0u64;
+    util::par_runs(
+        runs,
+        workers,
+        |i| {
+            let p = gen_chain(seed, i as u64);
+            let ninit: BTreeSet<RegId> = p.init.iter().map(|(id, _)| *id).collect();
+            // how many arguments were results of earlier steps (the point of this part)
+            let fed = p.steps.iter().flat_map(|s| s.args.iter()).filter(|a| !ninit.contains(a)).count() as u64;
+            let viol = first_panic(&p).map(|(k, msg)| {
+                let class = format!("panic:{}", OPS[p.steps[k].op].name);
+                let small = shrink_chain(&p, &class);
+                let (k2, msg2) = first_panic(&small).unwrap_or((k.min(small.steps.len() - 1), msg));
+                let tr = execute(&small, Variant::None, true);
+                let args: Vec<String> = small.steps[k2].args.iter().map(|r| tr.regs.get(r).map(|v| v.render()).unwrap_or_default()).collect();
+                let detail = format!("in a composition of {} call(s): {}({}) panicked: {}", small.steps.len(), OPS[small.steps[k2].op].name, args.join(", "), msg2);
+                let mut rj = program_json(&small);
+                rj["property"] = json!("C18");
+                rj["part"] = json!("chain");
+                rj["config"] = json!(util::CONFIG_TAG);
+                rj["profile"] = json!(util::profile_tag());
+                rj["seed"] = json!(seed);
+                rj["run"] = json!(i);
+                rj["violation_class"] = json!(class);
+                rj["observed"] = json!(detail);
+                rj["shrunk_from"] = json!({"ops": p.steps.len(), "registers": p.init.len()});
+                Violation { class, detail, replay: rj }
+            });
+            (p.steps.len() as u64, fed, viol, if i % (runs / 2 + 1) == 0 { Some(program_json(&p)) } else { None })
+        },
+        |_, (n, fed, viol, sample)| {
+            sum.evaluations += 1;
+            steps += n;
+            consumed += fed;
+            *sum.faults_fired.get_mut("COMPOSED_CALL").unwrap() += n;
+            *sum.faults_effective.get_mut("COMPOSED_CALL").unwrap() += fed;
+            if let Some(s) = sample {
+                if sum.samples.len() < 2 {
+                    sum.samples.push(s);
+                }
+            }
+            if let Some(v) = viol {
+                sum.violations.push(v);
+            }
+        },
+    );
+    sum.distinct.insert(format!("chains-{runs}"));
+    sum.distinct.insert(format!("steps-{steps}"));
+    sum.extra.insert("steps_executed".into(), json!(steps));
+    sum.extra.insert("arguments_fed_from_earlier_results".into(), json!(consumed));
+    sum
+}
+
+pub fn replay_c18_chain(j: &J) -> Option<(String, String)> {
+    let p = program_from_json(j);
+    first_panic(&p).map(|(k, msg)| {
+        let tr = execute(&p, Variant::None, true);
+        let args: Vec<String> = p.steps[k].args.iter().map(|r| tr.regs.get(r).map(|v| v.render()).unwrap_or_default()).collect();
+        (
+            format!("panic:{}", OPS[p.steps[k].op].name),
+            format!("in a composition of {} call(s): {}({}) panicked: {}", p.steps.len(), OPS[p.steps[k].op].name, args.join(", "), msg),
+        )
+    })
+}
